@@ -97,6 +97,61 @@ func swContainerOf(c psatoken.IClaims) psatoken.ISwComponents {
 	return nil
 }
 
+// libraryValidationAccepts: the verdict of the library's getter (which is what
+// Validate() consults) on a struct literal holding the value.
+func libraryValidationAccepts(p Prof, o setterOp) (accepts, ok bool) {
+	mm := baseValid(p, 0)
+	cp := func() *[]byte { return bp(append([]byte{}, o.Bytes...)) }
+	switch o.Claim {
+	case CClientID:
+		mm.ClientID = i32p(o.I32)
+	case CLifecycle:
+		mm.Lifecycle = u16p(o.U16)
+	case CImplID:
+		mm.ImplID = cp()
+	case CBootSeed:
+		mm.BootSeed = cp()
+	case CCertRef:
+		mm.CertRef = sp(o.Text)
+	case CVSI:
+		mm.VSI = sp(o.Text)
+	case CInstID:
+		mm.InstID = cp()
+	case CNonce:
+		if p != P1 {
+			return false, false // eat.Nonce cannot hold every size
+		}
+		ns := [][]byte{append([]byte{}, o.Bytes...)}
+		mm.Nonces = &ns
+	default:
+		return false, false
+	}
+	lit, lok := mm.BuildLiteral()
+	if !lok {
+		return false, false
+	}
+	var err error
+	switch o.Claim {
+	case CClientID:
+		_, err = lit.GetClientID()
+	case CLifecycle:
+		_, err = lit.GetSecurityLifeCycle()
+	case CImplID:
+		_, err = lit.GetImplID()
+	case CBootSeed:
+		_, err = lit.GetBootSeed()
+	case CCertRef:
+		_, err = lit.GetCertificationReference()
+	case CVSI:
+		_, err = lit.GetVSI()
+	case CInstID:
+		_, err = lit.GetInstID()
+	case CNonce:
+		_, err = lit.GetNonce()
+	}
+	return err == nil, true
+}
+
 // apply performs the call on the library object.
 func (o setterOp) apply(c psatoken.IClaims) (err error, applicable bool) {
 	cp := func() []byte { return append([]byte{}, o.Bytes...) }
@@ -230,6 +285,12 @@ func c11Step(c psatoken.IClaims, m *MClaims, o setterOp) (string, bool, bool) {
 		if err != nil {
 			return fmt.Sprintf("%s (an empty component list = clear) failed: %v", o, err), false, true
 		}
+	}
+	// "iff the value is one VALIDATION accepts": the library's own validation
+	// of that value, held by a claims-set that did not get it through the
+	// setter, is the other side of the comparison (besides the model)
+	if lv, ok := libraryValidationAccepts(m.Prof, o); ok && lv != (err == nil) {
+		return fmt.Sprintf("%s: the setter says %v, but the library's validation of a claims-set holding that value says accepted=%v", o, err, lv), false, true
 	}
 	if !isClear && (err == nil) != want {
 		if want {
@@ -667,6 +728,33 @@ func TestC11_Sweep(t *testing.T) {
 			st.Case(fmt.Sprintf("comp/%s/%d", f, n), "component-setter")
 			if msg != "" {
 				reportCase(t, "C11", "c11comp", in, msg)
+			}
+		}
+		// binary values that happen to be TEXT (hex digits, decimal digits,
+		// base64 alphabets, with and without padding / prefixes), at the
+		// valid sizes, at twice and 4/3 of them and around
+		for _, n := range []int{32, 48, 64, 96, 128, 44, 66, 88, 43, 86, 24, 16, 34, 50} {
+			for ai, al := range []string{"0123456789abcdef", "0123456789ABCDEF", "00", "0123456789", "ABCDEFGHIJKLMNOPQRSTUVWXYZabcdefghijklmnopqrstuvwxyz0123456789+/", "ABCDEFGHIJKLMNOPQRSTUVWXYZabcdefghijklmnopqrstuvwxyz0123456789-_", "A"} {
+				b := make([]byte, n)
+				for i := range b {
+					b[i] = al[(i*7+n)%len(al)]
+				}
+				variants := [][]byte{b}
+				if n >= 4 {
+					pad := append([]byte{}, b...)
+					pad[n-1], pad[n-2] = '=', '='
+					pfx := append([]byte{}, b...)
+					pfx[0], pfx[1] = '0', 'x'
+					variants = append(variants, pad, pfx)
+				}
+				for vi, v := range variants {
+					in := c11CompIn{Field: f, Bytes: v}
+					msg := c11CompKind(in)
+					st.Case(fmt.Sprintf("comp/%s/text-like/%d/%d/%d", f, n, ai, vi), "component-setter")
+					if msg != "" {
+						reportCase(t, "C11", "c11comp", in, msg)
+					}
+				}
 			}
 		}
 	}
